@@ -1,6 +1,6 @@
 (* C09/Driver.v — entry point of the correspondence run: the generic driver of C09/Model.v
    instantiated with the byte-level line recogniser of C09/Grammar.v. *)
-From RM Require Import Base.Word C09.Model C09.Grammar.
+From RM Require Import Base.Word C08.Model C11.Model C09.Model C09.Grammar.
 Open Scope Z_scope.
 
 Definition cstate := st rle pst.
@@ -11,37 +11,52 @@ Definition drive_c (lines : list rle) (tail : Z) (sch : list Z) : outcome (resul
 Definition spec_c (lines : list rle) (tail : Z) : result pst :=
   spec rle pst init_pst recog_pst lineno_pst lines tail.
 
+(* the symbol table of a result: SymbolParser::finish on Ok *)
+Definition table_of (r : result pst) : outcome (option table) :=
+  match r with
+  | ROk p => do t <- finish p; Ret (Some t)
+  | RErr _ _ => Ret None
+  end.
+
 Record sym_out := {
   o_kind : Z;                  (* 0 Ok, 1 Err, 2 Panic, 3 OutOfFuel *)
   o_code : Z; o_line : Z;      (* Err: code and line; Panic: tag *)
   o_cb : Z; o_ncb : Z;         (* bytes given to the callback, number of calls *)
   o_nrd : Z; o_maxsp : Z;      (* read() calls, largest space offered *)
   o_cap : Z;                   (* final capacity *)
-  o_files : Z; o_origins : Z; o_publics : Z; o_url : bool;
+  o_table : option table;      (* Ok: the finished symbol table *)
   o_dropped : Z;               (* lines discarded by recovery *)
-  o_skind : Z; o_scode : Z; o_sline : Z     (* spec_c: same encoding *)
+  o_skind : Z; o_scode : Z; o_sline : Z;     (* spec_c: same encoding *)
+  o_stable : option table      (* finish of spec_c's state *)
 }.
 
 Definition zlen {A} (l : list A) : Z := Z.of_nat (length l).
 Definition count_dropped {A} (lg : list (bool * A)) : Z :=
   fold_left (fun (acc : Z) (e : bool * A) => if fst e then acc + 1 else acc) lg 0.
 
+Definition o_files (o : sym_out) : Z := match o_table o with Some t => zlen (t_files t) | None => 0 end.
+Definition o_publics (o : sym_out) : Z := match o_table o with Some t => zlen (t_publics t) | None => 0 end.
+Definition o_funcs (o : sym_out) : Z := match o_table o with Some t => zlen (t_funcs t) | None => 0 end.
+
 Definition run_case (lines : list rle) (tail : Z) (sch : list Z) : sym_out :=
-  let '(sk, sc, sl) := match spec_c lines tail with
+  let sr := spec_c lines tail in
+  let '(sk, sc, sl) := match sr with
                        | ROk _ => (0, 0, 0)
                        | RErr c l => (1, c, l)
                        end in
+  let stab := match table_of sr with Ret t => t | _ => None end in
   match drive_c lines tail sch with
   | Ret (r, s) =>
-      let mk k c l p :=
-        Build_sym_out k c l (cbsum s) (ncb s) (nrd s) (maxsp s) (b_cap (buf s))
-                      (zlen (p_files p)) (zlen (p_origins p)) (p_publics p) (p_url p)
-                      (count_dropped (log s)) sk sc sl in
-      match r with
-      | ROk p => mk 0 0 0 p
-      | RErr c l => mk 1 c l init_pst
+      let mk k c l t :=
+        Build_sym_out k c l (cbsum s) (ncb s) (nrd s) (maxsp s) (b_cap (buf s)) t
+                      (count_dropped (log s)) sk sc sl stab in
+      match r, table_of r with
+      | ROk _, Ret t => mk 0 0 0 t
+      | ROk _, Panic tag => mk 2 tag 0 None
+      | ROk _, _ => mk 2 (-2) 0 None
+      | RErr c l, _ => mk 1 c l None
       end
-  | Panic t => Build_sym_out 2 t 0 0 0 0 0 0 0 0 0 false 0 sk sc sl
-  | OutOfFuel => Build_sym_out 3 0 0 0 0 0 0 0 0 0 0 false 0 sk sc sl
-  | Fail => Build_sym_out 2 (-1) 0 0 0 0 0 0 0 0 0 false 0 sk sc sl
+  | Panic t => Build_sym_out 2 t 0 0 0 0 0 0 None 0 sk sc sl stab
+  | OutOfFuel => Build_sym_out 3 0 0 0 0 0 0 0 None 0 sk sc sl stab
+  | Fail => Build_sym_out 2 (-1) 0 0 0 0 0 0 None 0 sk sc sl stab
   end.
